@@ -338,8 +338,10 @@ def _collect(node: Any, root_id: str, acc: Dict[str, Any]) -> None:
         "type": node.type,
         "initial": node.initial,
         "history": node.history,
-        "entry": [a.type for a in node.entry],
-        "exit": [a.type for a in node.exit],
+        "history default": _resolved_history_default(node),
+        "id": getattr(node, "custom_id", None),
+        "entry": [_action_fingerprint(a) for a in node.entry],
+        "exit": [_action_fingerprint(a) for a in node.exit],
         "on": {
             event: [_transition_fingerprint(t) for t in transitions]
             for event, transitions in sorted(node.on.items())
@@ -350,10 +352,18 @@ def _collect(node: Any, root_id: str, acc: Dict[str, Any]) -> None:
                 node.after.items(), key=lambda kv: str(kv[0])
             )
         },
-        "invoke": sorted(i.src for i in node.invoke),
+        "invoke": sorted(
+            (_invoke_fingerprint(i) for i in node.invoke), key=repr
+        ),
         "on_done": [_transition_fingerprint(t) for t in on_done],
         "tags": sorted(node.tags or []),
+        "meta": _freeze(getattr(node, "meta", None) or None),
+        "output": _freeze(getattr(node, "output", None)),
     }
+    if node.id == root_id:
+        acc[path]["context"] = _freeze(
+            getattr(node, "initial_context", None) or None
+        )
     for child in node.states.values():
         _collect(child, root_id, acc)
 
@@ -369,10 +379,84 @@ def _transition_fingerprint(trans: Any) -> Tuple[Any, ...]:
     return (
         trans.event,
         _resolved_target(trans),
-        tuple(a.type for a in trans.actions),
-        trans.guard,
+        tuple(_action_fingerprint(a) for a in trans.actions),
+        _guard_fingerprint(getattr(trans, "guard_def", None)),
         bool(trans.reenter),
     )
+
+
+# 🛡️ Guards, actions and invocations are compared in FULL as well.
+#
+#    Comparing a guard by its type name alone treated `and(a, not(b))` and a
+#    bare, operand-less `and` as the same guard, and `stateIn` with and
+#    without its `stateId` as the same guard; comparing actions by type
+#    ignored their params; comparing invocations by `src` ignored their id,
+#    input and handlers. Each of those was emitted wrongly by some template
+#    while this gate printed "Verified ... exactly".
+
+
+def _freeze(value: Any) -> Any:
+    """Reduce a JSON-like value to something order-insensitive to compare."""
+    if isinstance(value, dict):
+        return tuple(
+            sorted(((str(k), _freeze(v)) for k, v in value.items()), key=repr)
+        )
+    if isinstance(value, (list, tuple)):
+        return tuple(_freeze(v) for v in value)
+    if callable(value):
+        return "<callable>"
+    return value
+
+
+_OPERAND_KEYS = ("guards", "children", "guard")
+
+
+def _guard_fingerprint(guard: Any) -> Any:
+    """A guard's type, own params and operands, recursively."""
+    if guard is None:
+        return None
+    params = getattr(guard, "params", None)
+    children = tuple(getattr(guard, "children", ()) or ())
+    if children and isinstance(params, dict):
+        # Operands may be spelled under params; they are compared as
+        # children, so the spelling itself is not a difference.
+        params = {
+            k: v for k, v in params.items() if k not in _OPERAND_KEYS
+        } or None
+    return (
+        guard.type,
+        _freeze(params or None),
+        tuple(_guard_fingerprint(c) for c in children),
+    )
+
+
+def _action_fingerprint(action: Any) -> Tuple[Any, ...]:
+    """An action's type and params."""
+    return (action.type, _freeze(getattr(action, "params", None) or None))
+
+
+def _invoke_fingerprint(invoke: Any) -> Tuple[Any, ...]:
+    """An invocation's id, source, input and completion handlers."""
+    return (
+        invoke.id,
+        invoke.src,
+        _freeze(getattr(invoke, "input", None) or None),
+        tuple(_transition_fingerprint(t) for t in invoke.on_done),
+        tuple(_transition_fingerprint(t) for t in invoke.on_error),
+    )
+
+
+def _resolved_history_default(node: Any) -> Optional[str]:
+    """The state a history node falls back to, as a canonical id."""
+    target = getattr(node, "target_str", None)
+    if node.type != "history" or not target:
+        return None
+    from ..resolver import resolve_target_state
+
+    try:
+        return resolve_target_state(target, node).id
+    except Exception:  # noqa: BLE001 — unresolvable targets compare raw
+        return f"<unresolved:{target}>"
 
 
 def _resolved_target(trans: Any) -> Optional[str]:
